@@ -410,6 +410,33 @@ def run(rep, tier, rng):
         voc = spa.Vocabulary(d, algebra=A)
         for nm in c10.NAMES:
             voc.add(nm, algs.fl(algs.rand_vec(rng, d, -2, 2)))
+        # exact zero pointers with compound names (A - A, B*0 + C*0) normalised and then used under tighter-binding operations
+        za, zb = voc[c10.NAMES[0]], voc[c10.NAMES[1]]
+        ZERO_CASES = [("~((A - A).normalized())", lambda: ~((za - za).normalized())), ("(A - A).normalized() * B", lambda: (za - za).normalized() * zb),
+                      ("B * (A - A).normalized()", lambda: zb * (za - za).normalized()), ("-(B*0 + A*0).normalized()", lambda: -((zb * 0 + za * 0).normalized())),
+                      ("(A - A).normalized() - B", lambda: (za - za).normalized() - zb), ("B - (A - A).normalized()", lambda: zb - (za - za).normalized())]
+        for label, fn in ZERO_CASES:
+            with warnings.catch_warnings():
+                warnings.simplefilter("ignore")
+                try:
+                    pz = fn()
+                except NotImplementedError:
+                    continue
+                name = pz.name
+                rep.case(("name-zero", al, label))
+                rep.count("name")
+                if name is None or "..." in name:
+                    continue
+                try:
+                    back = voc.parse(name).v
+                    okz, errz = np.allclose(back, pz.v, atol=1e-8), None
+                except Exception as e:  # noqa
+                    okz, errz = False, f"{type(e).__name__}: {e}"[:150]
+            if not okz:
+                rep.violation(f"pointer name {name!r} (built as {label}) does not parse back to the pointer's vector ({al}; {errz or 'different vector'})",
+                              {"case": {"alg": al, "built_as": label, "name": name},
+                               "python": "import numpy as np, nengo_spa as spa\nv = spa.Vocabulary(16, pointer_gen=np.random.RandomState(1)); v.populate('A; B')\nA, B = v['A'], v['B']\n"
+                                         f"p = {label}\nassert np.allclose(v.parse(p.name).v, p.v), p.name\n"})
         for _ in range(80 if quick else 800):
             p = voc[rng.choice(c10.NAMES)]
             steps = []
